@@ -1,6 +1,7 @@
 package props
 
 import (
+	"bytes"
 	"fmt"
 	"reflect"
 	"strings"
@@ -326,6 +327,39 @@ func TestC04(t *testing.T) {
 	}
 	r.NonTrivialExact(nt)
 	r.Note("exhaustive_space", fmt.Sprintf("all (n+1)^(2n) pointer assignments for n=1..%d nodes x %d filler layouts (this shard: codes = shard mod nshards)", maxN, c04Layouts))
+	// ---------------- flat graphs with very many references; octets of named types in front of a diamond
+	if shard == 0 {
+		four := []*zoo.FNode{{Id: 1}, {Id: 2}, {Id: 3}, {Id: 4}}
+		for _, n := range []int{300, 1100, 1500, 5000} {
+			root := &zoo.FNode{Id: int32(n)}
+			for i := 0; i < n; i++ {
+				root.Ls = append(root.Ls, four[(i*7+i/4)%4])
+			}
+			r.Current(fmt.Sprintf("C04 one list of %d slots that lead to 4 objects", n))
+			if msg := graphCheck(root); msg != "" {
+				directFail(t, "C04", map[string]interface{}{"slots": n, "objects": 4}, "C04 a list of %d slots that lead to 4 objects (%d references in one message): %s", n, n-4, msg)
+			}
+			r.Eval()
+			r.NonTrivial(av.Hash(fmt.Sprint("flatrefs", n)))
+		}
+		for hl := 0; hl <= 3; hl++ {
+			for pl := 0; pl <= 2; pl++ {
+				leaf := &zoo.Block{N: 9, Hash: zoo.Digest(bytes.Repeat([]byte{7}, hl))}
+				a := &zoo.Block{N: 1, Hash: zoo.Digest(bytes.Repeat([]byte{1, 200}, hl)), Perms: make([]zoo.Perm, pl), Parent: leaf}
+				b := &zoo.Block{N: 2, Perms: make([]zoo.Perm, pl), Parent: leaf, Uncle: a}
+				top := &zoo.Block{N: 3, Hash: zoo.Digest(bytes.Repeat([]byte{3}, hl)), Perms: make([]zoo.Perm, pl), Parent: a, Uncle: b, Kids: []*zoo.Block{a, b, leaf, a}}
+				leaf.Uncle = top // and a cycle
+				r.Current(fmt.Sprintf("C04 diamond of blocks with a named byte slice of %d and a []Perm of %d in front of the pointers", 2*hl, pl))
+				stage, err, _ := roundTrip(top)
+				if err != nil {
+					directFail(t, "C04", map[string]interface{}{"hash_octets": 2 * hl, "perms": pl}, "C04 a diamond (and a cycle) of blocks whose pointer fields follow a named byte slice of %d octets and a []Perm of %d: %s: %v", 2*hl, pl, stage, err)
+				}
+				r.Eval()
+				r.NonTrivial(av.Hash(fmt.Sprint("blocks", hl, pl)))
+			}
+		}
+		r.Label("flat graphs of up to 5000 references; octets of named types in front of a diamond")
+	}
 	// ---------------- random: up to 200 nodes, pointer / slice / map edges, shared slices and maps
 	check(t, "C04", func(rt *rapid.T, c *caseInfo) {
 		n := rapid.IntRange(1, 12).Draw(rt, "nodes")
